@@ -17,6 +17,8 @@ use std::time::Duration;
 
 /// index of the caller that can replace its image (present with the default helper set)
 pub const CHAMELEON: u8 = 7;
+/// index of the caller whose executable path is not valid UTF-8 (present with the default helper set)
+pub const RAW_PATH_CALLER: u8 = 8;
 pub const HELPER_NAMES: &[&str] = &["curl", "python3", "waagent", "Curl", "cur"];
 /// the first five are the identities every strategy uses (1004 has no passwd entry); the others are ids without a passwd entry
 /// that have a meaning somewhere else (the well-known Windows logon-session ids 0x3e4..0x3e9 named in proxy/windows.rs, 65533 (65534 is left out: the name service of this image synthesises "nobody" for it),
@@ -112,6 +114,7 @@ impl Rig {
         // the last caller can replace its image with exec (same pid): curl <-> python3
         if !helper_specs_given {
             helpers.spawn_chameleon("curl", "python3", &["3700".to_string()])?;
+            helpers.spawn_raw_path()?;
         }
         let mock = Mock::new();
         mock.listen("wireserver", "168.63.129.16:80")?;
